@@ -158,7 +158,10 @@ def s4(ctx, rep):
     ob = P.method("SynchronousBracket", "on_result")
     cfgb = cfg_of(ob)
     pr = ctx.nodes(ob, ctx.sel_call(selfcall="_promote_trials_at_rung_complete"), "may", 0)
-    ok = bool(pr) and all(ctx.has_fact(ob, n, lambda a: a[0] == "truth" and a[1] == "is_complete" and a[2] is True) for n in pr)
+    from ..engine import vars_assigned_from
+    cv = vars_assigned_from(ob, lambda v: isinstance(v, ast.BoolOp) and isinstance(v.op, ast.And) and "self._first_free_pos >= len(" in U(v)
+                            and "self.num_pending_slots() == 0" in U(v))
+    ok = bool(pr) and len(cv) == 1 and all(ctx.has_fact(ob, n, lambda a: a[0] == "truth" and a[1] == cv[0] and a[2] is True) for n in pr)
     rep.put(ok, "S4", "guarded_by", "SynchronousBracket.on_result: promotion (and release of checkpoints) only when the rung is complete", ob, None, "")
 
 
